@@ -14,11 +14,16 @@ type Sx struct {
 	IsL  bool
 }
 
-func A(s string) Sx          { return Sx{Atom: s} }
-func I(i int) Sx             { return Sx{Atom: strconv.Itoa(i)} }
-func B(b bool) Sx            { if b { return A("t") }; return A("f") }
-func L(xs ...Sx) Sx          { return Sx{List: xs, IsL: true} }
-func LS(xs []Sx) Sx          { return Sx{List: xs, IsL: true} }
+func A(s string) Sx { return Sx{Atom: s} }
+func I(i int) Sx    { return Sx{Atom: strconv.Itoa(i)} }
+func B(b bool) Sx {
+	if b {
+		return A("t")
+	}
+	return A("f")
+}
+func L(xs ...Sx) Sx { return Sx{List: xs, IsL: true} }
+func LS(xs []Sx) Sx { return Sx{List: xs, IsL: true} }
 
 // S encodes a Go string as a code point atom; invalid UTF-8 bytes b become 0x110000+b.
 func S(s string) Sx {
